@@ -2,7 +2,9 @@
 (* Trace specification binding spec/Reader.tla to the real Demuxer (harness/rmodel.go).  Events:
      rreset t S kind npk extra auto sched     a fresh Demuxer over npk frames of S bytes plus `extra` bytes of a further frame, through a
                                               reader of the kind (seek | bufio | plain) with the short-read schedule sched
-     rcall  r                                 one NextPacket call: r = index of the frame returned, -2 = ErrNoMorePackets, -3 = another error
+     rcall  r                                 one NextPacket call: r = index of the frame returned, -2 = ErrNoMorePackets, -3 = another error,
+                                              -5 = the context's error
+     rcancel                                  the harness cancels the context given to NewDemuxer (between two calls)
    Every rcall must be one of Reader!Call's results in the state reached so far (Dev = {}: exactly one); the state then advances as the
    specification says.  Nothing but the call results is logged: offsets and the packet buffer are inferred by the specification. *)
 EXTENDS MonBase
@@ -26,6 +28,7 @@ Step(x, e, i) ==
   CASE e.ev = "rreset" -> [St0(e.t, i) EXCEPT !.cf = [S |-> e.S, kind |-> e.kind, npk |-> e.npk, extra |-> e.extra, auto |-> e.auto], !.sched = e.sched]
     [] e.ev = "reset" -> St0(e.t, i)
     [] e.ev = "rcall" -> OnCall(x0, e)
+    [] e.ev = "rcancel" -> [x0 EXCEPT !.s = RD!Cancelled(x.s)]
     [] OTHER -> x
 
 Init == l = 1 /\ st = St0("none", 0)
